@@ -32,7 +32,9 @@ InRange(k, v) == Leq(Lo(k), Key(v)) /\ Leq(Key(v), Hi(k))
 \*   fraction / exponent; lit.isint says whether it denotes an integer, lit.n which)
 \*   "str" (a JSON string that is neither RFC 3339 nor base64) "time" (RFC 3339 text)
 \*   "b64" (canonical base64) "b64nc" (base64 that is not canonical) "arr" "obj"
-StrClasses == {"str", "time", "b64", "b64nc"}
+\*   "timelax" (a text Go's time parser takes although RFC 3339 does not define it: a one-digit hour, a
+\*   comma before the fraction, an offset of 24 hours or of 60 minutes)
+StrClasses == {"str", "time", "b64", "b64nc", "timelax"}
 
 \* The outcome of decoding: out \in {"accept", "reject", "panic"}; for accept:
 \*   isnil, n (integer kinds), same (the stored value equals the independent reading
@@ -56,7 +58,10 @@ DecodeOK(kind, nullable, lit, r) ==
     ELSE IF kind = "string" THEN
         IF lit.cls \in StrClasses THEN r.out = "accept" /\ r.same ELSE r.out = "reject"
     ELSE IF kind = "time" THEN
-        IF lit.cls = "time" THEN r.out = "accept" /\ r.same ELSE r.out = "reject"
+        \* (a lax time text may be refused; if it is accepted, it is the instant the text spells)
+        IF lit.cls = "time" THEN r.out = "accept" /\ r.same
+        ELSE IF lit.cls = "timelax" THEN r.out = "reject" \/ (r.out = "accept" /\ r.same)
+        ELSE r.out = "reject"
     ELSE IF kind = "bytes" THEN
         CASE lit.cls = "b64" -> r.out = "accept" /\ r.same
           [] lit.cls = "b64nc" -> r.out = "reject" \/ (r.out = "accept" /\ r.same)
@@ -169,6 +174,10 @@ Dev_NullAcceptedAsZero(e) ==
 \* null is accepted for a non-nullable byte string (read as the empty / nil slice): a wrapped
 \* struct whose []byte field is unset is marshaled as null, and TestUnmarshalDocument compares
 \* the round trip with reflect.DeepEqual (nil vs empty), so neither side can be changed
+\* (fixed) a time text with an offset of 24 hours, which RFC 3339 does not define and Go's parser lets
+\* through, was accepted although the stored time cannot be written: re-marshaling gave an empty payload
+Dev_UnwritableTimeAccepted(e) ==
+    /\ e.ev = "decode" /\ e.kind = "time" /\ e.lit.cls = "timelax" /\ e.r.out = "accept" /\ ~e.r.remarshal_ok
 Dev_NullBytesAccepted(e) ==
     /\ e.ev = "decode" /\ ~e.null /\ e.lit.cls = "null" /\ e.kind = "bytes"
     /\ e.r.out = "accept" /\ ~e.r.isnil /\ e.r.typeok
